@@ -42,7 +42,7 @@ shutil.copy(os.path.join(sd, "demo.rs"), os.path.join(wt, "tests", "seeded_demo.
 
 def demo():
     if needs_miri:
-        return sh("cargo +nightly miri test --offline --test seeded_demo 2>&1 | tail -40", wt, timeout=1800, extra_env={"MIRIFLAGS": "-Zmiri-many-seeds=0..16"})
+        return sh("cargo +nightly miri test --offline --test seeded_demo 2>&1 | tail -40", wt, timeout=1800, extra_env={"MIRIFLAGS": os.environ.get("EVAL_MIRIFLAGS", "-Zmiri-many-seeds=0..16")})
     return sh("cargo test --offline --test seeded_demo 2>&1 | tail -40", wt, timeout=1800)
 
 
